@@ -18,7 +18,8 @@ from .common import Check, MachineryFailure, validate_rows
 from .c12 import T
 
 A = lambda n: T([], "ident", n)
-DIMS = {"#d=3": [T(["#", "="], "int", v=3)], "*d=v": [T(["*", "="], "ident", "v")], "d=#a b": [T(["=", "#"], "ident", "a"), A("b")],
+DIMS = {"?a": [T(["?"], "ident", "a")], "*?v b": [T(["*", "?"], "ident", "v"), A("b")],
+        "#d=3": [T(["#", "="], "int", v=3)], "*d=v": [T(["*", "="], "ident", "v")], "d=#a b": [T(["=", "#"], "ident", "a"), A("b")],
         "": [], "a": [A("a")], "b a": [A("b"), A("a")], "*v": [T(["*"], "ident", "v")], "... a": [T([], "dots"), A("a")],
         "2": [T([], "int", v=2)], "#a": [T(["#"], "ident", "a")], "a a": [A("a"), A("a")], "_ 3": [T(["_"], "empty"), T([], "int", v=3)]}
 
